@@ -229,6 +229,10 @@ func readObject(ber []byte, offset int) (asn1Object, int, error) {
 	} else {
 		var subObjects []asn1Object
 		subLen := 0
+		// the components of a definite-length object end where the object ends
+		if !indefinite {
+			ber = ber[:contentEnd]
+		}
 		for (offset < contentEnd) || indefinite {
 			var subObj asn1Object
 			var err error
